@@ -25,10 +25,13 @@ THEOREMS = ["C12_fw_family", "C12_fw_function", "C12_fw_closed",
             "C12_named_round_div_max", "C12_named_cover", "C12_presets_nested", "C12_round_half_even",
             "C12_column_max", "C12_conditions_total", "C12_sizes", "C12_keep", "C12_keep_meaning", "C12_parse",
             "C12_parse_quotes", "C12_parse_digits", "C12_union", "C12_union_last_wins", "C12_union_nodup",
-            "C12_split_join", "C12_check_sound", "C12_model_emitted"]
-MODEL_TARGETS = ["Features/Transform.vo", "Gen/Presets.vo", "Gen/TransformConstants.vo", "Features/TransformTables.vo"]
+            "C12_split_join", "C12_check_sound", "C12_model_emitted",
+            "C12_emitted_iff", "C12_text_classes", "C12_denQ_sound", "C12_exact_model_sound", "C12_den3_refines_den",
+            "C12_parse3", "C12_parse_numeral", "C12_parse_print", "C12_float_thresholds", "C12_registry_subset"]
+MODEL_TARGETS = ["Features/Transform.vo", "Features/Transform3.vo", "Gen/Presets.vo", "Gen/TransformConstants.vo", "Features/TransformTables.vo"]
 HEADER = ("From Coq Require Import List NArith ZArith QArith.\n"
-          "From Outrank Require Import Features.Transform Gen.Presets Gen.TransformConstants Features.TransformTables.\n"
+          "From Outrank Require Import Features.Transform Features.Transform3 Gen.Presets Gen.TransformConstants "
+          "Features.TransformTables.\n"
           "Import ListNotations.\nLocal Close Scope Q_scope.\nOpen Scope N_scope.")
 TOL = 1e-9
 NAN = float("nan")
@@ -235,7 +238,7 @@ def _rd_log100(xs, x, fr):
 
 
 def _rd_round_div_max(xs, x, fr):
-    v = f_div(x, max(xs))
+    v = f_div(x, ev(["MaxX"], xs, x, fr))
     fr.tie(v)
     return f_round(v)
 
@@ -432,6 +435,20 @@ def gen_column(rng, style):
         n = rng.randint(3, 20)
         cells = [rng.choice([rng.randint(-400, 4000) / 4.0, float(rng.choice(GRID)), 0.0, 16777216.0, -0.5, 17179869184.0])
                  for _ in range(n)]
+    elif style == "pyfloat":         # everything Python's float() accepts that a text column can carry
+        n = rng.randint(3, 16)
+        pool = [" 12 ", "1_000", "\t3.5", "7\n", "nan", "NaN", "-nan", "inf", "-inf", "Infinity", "+INF", "-INFINITY",
+                "1e5", "1_0.2_5", "1E1_0", " -0.0 ", "\" 4\"", "+.5e1", "2", "0", "", "16", "9"]
+        cells = [rng.choice(pool) for _ in range(n)]
+        if rng.random() < 0.25:      # one cell that makes float() raise: the construction must fail, nothing else
+            cells[rng.randrange(n)] = rng.choice(["abc", "1__0", "_1", "1_", "1 2", "1._5", "1_.5", "0x10", "e5", ".", "--1",
+                                                  "in f", "nane", "1e", "1e+"])
+    elif style == "squares":         # values on which the composed model is computable in Q (exact square roots)
+        n = rng.randint(3, 24)
+        g = rng.choice(GRID)
+        cells = [rng.choice([str(rng.randint(0, 30) ** 2), str(rng.randint(0, 30) ** 2), str(g + rng.randint(0, 12) ** 2),
+                             "%s" % (rng.randint(0, 40) ** 2 / 4.0), "-%d" % rng.randint(1, 9), "0", "", "-0.0", str(g),
+                             "0.%02d" % rng.choice(GRID), "1", "2"]) for _ in range(n)]
     else:
         raise ValueError(style)
     return cells
@@ -444,7 +461,8 @@ STYLE_DTYPES = {"int64_huge": ["int64"], "int32_big": ["int32"], "uint_big": ["u
 
 
 STYLES = [("mixed", 28), ("prob", 9), ("counts", 9), ("constant", 6), ("majority", 13), ("nanshare", 11), ("tiny", 5),
-          ("ints", 5), ("floats", 4), ("int64_huge", 6), ("int32_big", 4), ("uint_big", 2), ("int_mixed", 4), ("float32", 2)]
+          ("ints", 5), ("floats", 4), ("int64_huge", 6), ("int32_big", 4), ("uint_big", 2), ("int_mixed", 4), ("float32", 2),
+          ("pyfloat", 7), ("squares", 9)]
 
 
 def _pick_style(rng):
@@ -499,6 +517,18 @@ def load_corpus(pid):
             if f.endswith(".json"):
                 out.append(json.load(open(os.path.join(d, f))))
     return out
+
+
+_EXPO = re.compile(r"[eE]([+-]?)(\d[\d_]*)")
+
+
+def _moderate(t):
+    """cells on which exact rational arithmetic in Coq stays cheap (the composed model is evaluated on these only;
+    integer square roots of 300-digit numbers take seconds in vm_compute)"""
+    if len(t) > 24:
+        return False
+    m = _EXPO.search(t)
+    return not (m and len(m.group(2).replace("_", "")) > 0 and int(m.group(2).replace("_", "") or 0) > 15)
 
 
 def cell_text(c):
@@ -613,6 +643,11 @@ def _check(run, replay):
             if not same:
                 run.violation("broken-obligation", "translator: Coq tables differ from the Python trees", found_input=False)
 
+    if tr is not None:
+        unmodelled = [k for k in tr.get("registry_keys", []) if k not in TP.PRESETS]
+        run.cov["registry"] = {"modelled": TP.PRESETS, "vault_keys_not_modelled": unmodelled}
+        run.oblige("registry: modelled presets are keys of the vault registry (others recorded, outside C12)",
+                   all(p in tr.get("registry_keys", []) for p in TP.PRESETS), "not modelled: %s" % unmodelled)
     exprs_of = {}
     if tr is not None:
         for p in TP.PRESETS:
@@ -640,6 +675,10 @@ def _check(run, replay):
     which_of = {}
     for i, (c, r) in enumerate(zip(cases, res)):
         if not r.get("ok"):
+            if r.get("stage") != "init":     # did the construction fail because a cell is not a number?
+                for col, cells in c["columns"]:
+                    exprs.append("map (fun s => pres_code (parse_cell3 s)) %s" % enc_list([cell_text(x) for x in cells]))
+                    keys.append(("p", i, col))
             continue
         coll_names = [k for k, _ in r["collection"]]
         new_names = [nm for nm, _ in r["new"]]
@@ -671,10 +710,11 @@ def _check(run, replay):
                     % (vlib.strlit(c["preset"]), vlib.strlit(col), vlib.nlist(which), vlib.strlist(obs)))
             confirm[(i, col)] = "let tbl := %s in let pats := [%s] in %s" % (enc_list(tbl), "; ".join(pats), full)
             exprs.append(
-                "let tbl := %s in let pats := [%s] in (%s, map keep_row pats, "
-                "map (fun s => option_map (fun q => (Qnum q, Zpos (Qden q))) (parse_cell_spec s)) %s)"
-                % (enc_list(tbl), "; ".join(pats), full if small else "true",
-                   enc_list([cell_text(x) for x in cells])))
+                "let tbl := %s in let pats := [%s] in let cells := %s in (%s, map keep_row pats, "
+                "map (fun s => pres_code (parse_cell3 s)) cells, %s)"
+                % (enc_list(tbl), "; ".join(pats), enc_list([cell_text(x) for x in cells]), full if small else "true",
+                   ("keepQ_column %s cells" % vlib.strlit(c["preset"])) if all(_moderate(cell_text(x)) for x in cells)
+                   else "@None (list (option bool))"))
             which_of[(i, col)] = (which, small)
             keys.append((i, col))
     vals = vlib.coq_eval("C12", HEADER, exprs, shard=24 if run.tier == "quick" else 40, jobs=12)
@@ -685,18 +725,20 @@ def _check(run, replay):
     hist = {"presets": {}, "styles": {}, "rows": {}, "kept": 0, "dropped_constant": 0, "dropped_majority": 0,
             "dropped_nan": 0, "majority_exactly_80pct": 0, "majority_one_row_below": 0, "nan_exactly_75pct": 0,
             "nan_one_row_below": 0, "nan_rule_decisive": 0, "impl_errors": 0, "quoted_cells": 0, "empty_cells": 0,
-            "cells_outside_model_grammar": 0}
+            "frames_with_a_non_numeric_cell (both raise)": 0, "nan_cells": 0, "inf_cells": 0, "blank_or_underscore_cells": 0}
     stats = {"columns": 0, "transformed_columns": 0, "values_vs_translated_expr": 0, "values_vs_reading": 0,
              "nonfinite_values": 0, "decisions_vs_independent_values": 0, "excluded_rounding_sensitive_values": 0,
              "excluded_rounding_sensitive_decisions": 0, "names_without_reading": 0, "names_without_translation": 0,
              "parse_cells": 0, "C12_check_in_coq": 0, "real_number_reading_agrees": 0,
-             "real_number_reading_differs_float_effect": 0}
+             "real_number_reading_differs_float_effect": 0, "composed_model_decisions": 0,
+             "composed_model_not_computable_in_Q": 0, "composed_model_excluded_not_exactly_representable": 0}
     real_budget = [60000 if run.tier == "quick" else 400000]
     float_effects = []
     fe_seen = set()
     fam_ok = {"names (C12_check on the implementation's rendered values)": True, "union (transformer_collection)": True,
               "parse (get_vals)": True, "values vs translated formula": True, "values vs reading of the name": True,
-              "keep/drop vs independently computed values": True, "appended columns carry the rendered values": True}
+              "keep/drop vs independently computed values": True, "appended columns carry the rendered values": True,
+              "names vs the composed Coq model evaluated on the raw cells": True}
     MAXV = 12
 
     def viol(fam, case, **kw):
@@ -720,6 +762,12 @@ def _check(run, replay):
         if not r.get("ok"):
             hist["impl_errors"] += 1
             if r.get("stage") == "init" and msel is None:
+                run.count_case([c["preset"], c["columns"]], False)
+                continue
+            if r.get("stage") != "init" and "ValueError" in str(r.get("error", "")) and any(
+                    pc[0] == 3 for col_, _ in c["columns"] for pc in model_col.get(("p", i, col_), [])):
+                # the model says float() raises on some cell of this frame: the failure is the specified behaviour
+                hist["frames_with_a_non_numeric_cell (both raise)"] += 1
                 run.count_case([c["preset"], c["columns"]], False)
                 continue
             viol("union (transformer_collection)" if r.get("stage") == "init" else
@@ -759,34 +807,53 @@ def _check(run, replay):
                 viol("values vs translated formula", one_col(c, col), impl=bad[0][1],
                      clause="formula %r evaluates to a column" % bad[0][0])
                 continue
-            chk, prow, parses = model_col[(i, col)]
+            chk, prow, parses, kq_col = model_col[(i, col)]
             which, small = which_of[(i, col)]
             rows = [prow[w] for w in which]
             stats["C12_check_in_coq"] += 1 if small else 0
-            # -- parse
+            # -- parse (four-way: value / nan / inf / ValueError)
             xs = []
             xq = []
-            grammar_ok = True
-            for cell, pq, iv in zip(cells, parses, r["vals"][col]):
+            exact_cells = True
+            for cell, pc, iv in zip(cells, parses, r["vals"][col]):
                 t = cell_text(cell)
+                tag, pnum, pden, pneg = pc
                 hist["quoted_cells"] += 1 if '"' in t else 0
                 hist["empty_cells"] += 1 if t.replace('"', "") == "" else 0
-                if pq is None:
-                    hist["cells_outside_model_grammar"] += 1
-                    grammar_ok = False
-                    continue
-                q = Fraction(pq[1][0], pq[1][1])
-                xv = float(q)
-                if xv == 0 and t.replace('"', "").startswith("-"):
-                    xv = -0.0
+                hist["blank_or_underscore_cells"] += 1 if (t != t.strip() or "_" in t) else 0
                 stats["parse_cells"] += 1
-                if float(iv) != xv and not abs(float(iv) - xv) <= 1e-12 * abs(xv):
+                fiv = float(iv)
+                if tag == 3:
+                    viol("parse (get_vals)", _with_dtype(c, col, {"preset": c["preset"], "columns": [[col, [cell]]]}),
+                         impl=iv, model="ValueError", clause="float() of the cell raises; the implementation returned a value")
+                    xs.append(fiv)
+                    xq = None
+                    continue
+                if tag == 1:
+                    hist["nan_cells"] += 1
+                    xv, q = NAN, None
+                elif tag == 2:
+                    hist["inf_cells"] += 1
+                    xv, q = (-INF if pneg else INF), None
+                else:
+                    q = Fraction(pnum, pden) * (-1 if pneg else 1)
+                    try:
+                        xv = float(q)
+                    except OverflowError:
+                        xv = -INF if pneg else INF
+                    if xv == 0 and pneg:
+                        xv = -0.0
+                    if math.isinf(xv) or Fraction(xv) != q:
+                        exact_cells = False
+                same = (fiv != fiv and xv != xv) or fiv == xv or (
+                    not math.isinf(fiv) and not math.isinf(xv) and abs(fiv - xv) <= 1e-12 * abs(xv))
+                if not same:
                     viol("parse (get_vals)", _with_dtype(c, col, {"preset": c["preset"], "columns": [[col, [cell]]]}), impl=iv,
-                         model=str(q), clause="numeric parse of the cell (empty string = 0, quotes stripped)")
+                         model=repr(xv), clause="numeric parse of the cell (empty string = 0, quotes stripped, Python float())")
                 xs.append(xv)
-                xq.append(_DCTX.divide(decimal.Decimal(q.numerator), decimal.Decimal(q.denominator)))
-            if not grammar_ok:
-                continue
+                if xq is not None:
+                    xq = xq + [_DCTX.divide(decimal.Decimal(q.numerator), decimal.Decimal(q.denominator))] \
+                        if q is not None else None
             # -- names: the Coq checker on the implementation's own rendered values
             cand = {col + k: k for k in coll_names}
             obs = sorted(nm for nm in new if nm in cand)
@@ -867,7 +934,7 @@ def _check(run, replay):
                                      impl=strs[rix], model=repr(mv),
                                      clause="%s at X=%r: implementation %s, independent evaluation of %r gives %r"
                                             % (name, x, strs[rix], formula, mv))
-                    if tre is not None and tre[0] == formula and real_budget[0] > 0:
+                    if tre is not None and tre[0] == formula and real_budget[0] > 0 and xq is not None:
                         real_budget[0] -= 1
                         try:
                             rr = evR(tre[1], xq, xq[rix])
@@ -908,6 +975,20 @@ def _check(run, replay):
                                         % name, extra={"independent": [repr(v) for v in mvs][:60], "rendered": strs[:60]})
                     else:
                         stats["decisions_vs_independent_values"] += 1
+                # -- the composed Coq model (exact arithmetic on the raw cells), where it is computable
+                kq = kq_col[1][j] if kq_col is not None and j < len(kq_col[1]) else None
+                if kq is None:
+                    stats["composed_model_not_computable_in_Q"] += 1
+                elif not exact_cells or fr_col.hit or near_dupes(mvs) or near_dupes(ivs):
+                    stats["composed_model_excluded_not_exactly_representable"] += 1
+                else:
+                    stats["composed_model_decisions"] += 1
+                    if kq[1] != emitted:
+                        viol("names vs the composed Coq model evaluated on the raw cells", one_col(c, col),
+                             impl={"appended": emitted}, model={"keep": kq[1]},
+                             clause="%s: emitted iff the text of the named formula on the parsed cells has >1 distinct value, "
+                                    "most frequent < 80%% of rows, nan < 75%% of rows" % name,
+                             extra={"rendered": strs[:60]})
             nontrivial = nontrivial or (kept_here > 0 and dropped_here > 0)
         stray = sorted(set(new) - claimed)
         if stray:
